@@ -152,6 +152,9 @@ Proof. vm_compute. repeat split; reflexivity. Qed.
 
 (* caches do fill, and a second request for the same key is a hit (one entry, not two) *)
 Example c07_caches_used :
-  let st := exec toy false (init toy) [@Load toy (Some true); @Classify toy tt; @Load toy (Some false); @Classify toy tt] in
-  map fst (ecache (cs toy st)) = ["contains(""UBER"")"%string] /\ map fst (rcache (cs toy st)) = [].
-Proof. vm_compute. split; reflexivity. Qed.
+  let h := [@Load toy (Some true); @Classify toy tt; @Load toy (Some false); @Classify toy tt] in
+  let st := exec toy false (init toy) h in
+  let st' := exec toy true (init toy) h in
+  map fst (ecache (cs toy st)) = ["contains(""UBER"")"%string] /\ map fst (rcache (cs toy st)) = [] /\
+  map fst (ecache (cs toy st')) = ["contains(""UBER"")"%string] /\ map fst (rcache (cs toy st')) = ["UBER"%string].
+Proof. vm_compute. repeat split; reflexivity. Qed.
